@@ -214,6 +214,10 @@ def step (u : Unit) (op impl : String) : Unit × DrvOut :=
   | "mget" :: _ :: _ :: hexes => (u, stepMget hexes impl)
   | "mgetx" :: _ :: _ :: hexes => (u, stepMget hexes impl)
   | "e2e" :: "mget" :: _ :: hexes => (u, stepMget hexes impl)
+  | "e2e" :: "names" :: _ =>
+    (u, if impl.startsWith "crash" || impl == "timeout" || impl == "nostatus" then
+          { model := "-", spec := "FAIL server process died or hung on a recording directory with foreign file names: " ++ impl }
+        else { model := "-" })
   | ["parse", i, h] => (u, stepParse false i h impl)
   | ["dur", t, h] => (u, stepDur false t h impl)
   | ["mux", e, d, h] => (u, stepMux false e d h impl)
